@@ -50,6 +50,10 @@ func cmdRegexp(p *lang.Process) (err error) {
 		return fmt.Errorf("invalid regexp (too many parameters) in: `%s`", p.Parameters.StringAll())
 	}
 
+	if len(sRegex[0]) == 0 {
+		return errors.New("invalid regexp. Please use either match (m), substitute (s) or find (f)")
+	}
+
 	var rx *regexp.Regexp
 	if rx, err = regexp.Compile(sRegex[1]); err != nil {
 		return
